@@ -120,6 +120,46 @@ theorem repair_keeps_original (ix : Idx) (n k t s : Nat) (c : List Nat) :
   simp only [Bool.false_or, bne_eq_false_iff_eq] at h
   exact filter_eq_of_length h
 
+/-- (P2a) The blob loop of `RepairState::process_node` AS WRITTEN (`blobLoop`: a missing blob sets `file_changed`, nothing
+clears it) computes, for a content list of any length: flag = SOME blob is missing, content = the indexed blobs in
+order, size = the sum of their `data_length`s — and `repNode` on a file is exactly that loop. -/
+theorem repair_blob_loop_accumulates (ix : Idx) (c : List Nat) :
+    blobLoop ix c = (c.any (fun d => !(ix d).isSome), c.filter (fun d => (ix d).isSome),
+      ((c.filter (fun d => (ix d).isSome)).map (fun d => (ix d).getD 0)).sum) ∧
+    ∀ n k t s sfx, repNode ix (.file n k t s c sfx) =
+      (.file n k t (blobLoop ix c).2.2 (blobLoop ix c).2.1 (sfx || (blobLoop ix c).1), (blobLoop ix c).1) :=
+  ⟨blobLoop_spec ix c, fun n k t s sfx => repNode_file_loop ix n k t s c sfx⟩
+
+/-- (P2b) Partially lost files: a file with any number of chunks of which ANY non-empty subset is missing from the
+index — the first, a middle one, the last, several, all — is marked with the suffix AND reported as changed (so its
+tree is re-saved), and keeps exactly its indexed chunks in order, strictly fewer than before. -/
+theorem repair_marks_partially_lost (ix : Idx) (n k t s : Nat) (c : List Nat) (h : ∃ d ∈ c, ix d = none) :
+    ∃ s', repNode ix (.file n k t s c false) = (.file n k t s' (c.filter (fun d => (ix d).isSome)) true, true) ∧
+      (c.filter (fun d => (ix d).isSome)).length < c.length := by
+  obtain ⟨d, hd, hn⟩ := h
+  have hany : c.any (fun d => !(ix d).isSome) = true := List.any_eq_true.mpr ⟨d, hd, by simp [hn]⟩
+  have hne : ((c.filter (fun d => (ix d).isSome)).length != c.length) = true := by rw [filter_length_bne]; exact hany
+  refine ⟨((c.filter (fun d => (ix d).isSome)).map (fun d => (ix d).getD 0)).sum, by simp only [repNode, hne, Bool.or_true], ?_⟩
+  have hle := List.length_filter_le (fun d => (ix d).isSome) c
+  have : (c.filter (fun d => (ix d).isSome)).length ≠ c.length := by simpa using hne
+  omega
+
+/-- (P2c) A file is kept unmarked (and unreported) exactly when every one of its chunks is indexed; the mark and the
+reported change coincide. -/
+theorem repair_unmarked_iff_complete (ix : Idx) (n k t s : Nat) (c : List Nat) :
+    ((repNode ix (.file n k t s c false)).2 = false ↔ ∀ d ∈ c, (ix d).isSome = true) ∧
+    ∃ s' c', (repNode ix (.file n k t s c false)).1 = .file n k t s' c' (repNode ix (.file n k t s c false)).2 := by
+  refine ⟨?_, _, _, by simp only [repNode, Bool.false_or]; rfl⟩
+  simp only [repNode, filter_length_bne, List.any_eq_false, Bool.not_eq_true', Bool.not_eq_false]
+
+/-- Witness for the excluded behaviour (seeded change C12-4: `file_changed` ASSIGNED per blob, `blobLoopLastOnly`): a
+three-chunk file whose first chunk is lost while the last survives comes out unflagged with two chunks — kept under
+its name, silently truncated — whereas the loop as written flags it.  Replayed on the real code by the `repair.multi`
+cases of harness/src/c12.rs (corpus/C12/repair_partially_lost_files.ops). -/
+theorem repair_last_blob_only_keeps_truncated_file_unmarked :
+    blobLoopLastOnly (fun d => if d = 0 then none else some 4096) [0, 1, 2] = (false, [1, 2], 8192) ∧
+    blobLoop (fun d => if d = 0 then none else some 4096) [0, 1, 2] = (true, [1, 2], 8192) := by decide
+
 /-- (P3) The same for whole snapshots: every file of the tree `repair` saves (`some t`) that is not marked with the
 suffix is a file of the original tree at the same path with the same content list, and every chunk of it is
 indexed; a snapshot repair leaves alone (`none`) has all chunks of all visible files indexed. -/
@@ -139,6 +179,47 @@ theorem repair_kept_files_keep_content (ix : Idx) (root : List RT) :
     by_cases hh : (repNodes ix root).2 = true
     · simp [hh] at h
     · exact repNodes_unchanged_indexed ix root (by simpa using hh)
+
+/-- (P4) Whole snapshots, exactly: the files visible in the tree `repair` saves are the files visible before, at the
+same paths and in the same order, each with exactly its indexed chunks and marked iff it was marked already or SOME
+chunk of it is missing (`repFile`) — at every depth, for files of any number of chunks and any set of lost chunks; a
+snapshot left alone has no file that `repFile` would alter. -/
+theorem repair_files_exact (ix : Idx) (root : List RT) :
+    (∀ t, repairRoot ix true root = some t → filesList t = (filesList root).map (repFile ix)) ∧
+    (repairRoot ix true root = none → (filesList root).map (repFile ix) = filesList root) := by
+  have hl := repList_files ix root
+  constructor
+  · intro t ht
+    simp only [repairRoot, Bool.not_true, Bool.false_eq_true, if_false] at ht
+    split at ht
+    · simp only [Option.some.injEq] at ht; subst ht; exact hl
+    · simp at ht
+  · intro h
+    simp only [repairRoot, Bool.not_true, Bool.false_eq_true, if_false] at h
+    split at h
+    · simp at h
+    · rename_i hh
+      have : (repList ix root).1 = root := by
+        simp only [repList] at hh ⊢
+        split
+        · rename_i h2; simp [h2] at hh
+        · rfl
+      rw [← hl, this]
+
+/-- (P4') Hence a partially lost file is never left alone: if some chunk of a visible, unmarked file of the snapshot is
+missing, `repair` replaces the snapshot, and the saved tree holds that file marked with exactly its indexed chunks. -/
+theorem repair_partially_lost_file_is_marked (ix : Idx) (root : List RT) (p c : List Nat) (d : Nat)
+    (he : (p, c, false) ∈ filesList root) (hd : d ∈ c) (hn : ix d = none) :
+    ∃ t, repairRoot ix true root = some t ∧ (p, c.filter (fun d => (ix d).isSome), true) ∈ filesList t := by
+  have hany : c.any (fun d => !(ix d).isSome) = true := List.any_eq_true.mpr ⟨d, hd, by simp [hn]⟩
+  cases hr : repairRoot ix true root with
+  | none =>
+    have := (repair_kept_files_keep_content ix root).2 hr _ he d hd
+    simp [hn] at this
+  | some t =>
+    refine ⟨t, rfl, ?_⟩
+    rw [(repair_files_exact ix root).1 t hr]
+    exact List.mem_map.mpr ⟨_, he, by simp only [repFile, hany, Bool.or_true]⟩
 
 /-! ## copy -/
 
@@ -208,5 +289,13 @@ example : TypedDisjoint ⟨[], []⟩ [1] [⟨1, [2], [7]⟩, ⟨2, [], [8]⟩] :
   revert ht hd
   simp [needTrees, needData]
   omega
+
+/-- non-vacuity of the repair statements: a three-chunk file in a sub-directory losing its FIRST chunk (1) while the last
+(3, shared with the one-chunk file next to it) survives: the file comes out marked with chunks 2,3; the neighbours stay. -/
+example :
+    filesList ((repairRoot (fun d => if d = 1 then none else some 64) true
+      [.dir 7 0 0 0 [.file 1 0 0 192 [1, 2, 3] false, .file 2 0 0 64 [3] false], .file 9 0 0 128 [2, 2] false]).getD []) =
+    [([7, 1], [2, 3], true), ([7, 2], [3], false), ([9], [2, 2], false)] := by
+  simp [repairRoot, repList, repNodes, repNode, filesList, filesNode]
 
 end Rustic.Props.C12
